@@ -200,13 +200,16 @@ CLAIMED["C13"] = dict(
     level="other", design="3/C13",
     technique="static analysis: abstract interpretation of RandomGenerator over a dyadic-grid interval domain (sets n*2^e with integer "
               "bounds, smashed arrays, inlined calls with reference parameters, loop fixpoints) with an exactness check on every "
-              "floating-point operation; restart grammar agreement; call-site form rule for the optical-depth draws",
+              "floating-point operation; restart grammar agreement; call-site form rule for the optical-depth draws; whole-library "
+              "taint analysis (clock / cycle counter / pid / address / C-library generator sources, RandomGenerator seed sinks)",
     text="Decides the clauses of C13 that are invariants of the generator state: for EVERY seed the seeding code leaves the twelve state "
          "words in {n 2^-48 : 0 <= n < 2^48}, carry 0 and the indices in range (seed 0 becomes 1); the refill preserves that invariant "
          "with the carry in {0, 2^-48}; every returned value is a state word, hence in [0, 1 - 2^-48] (never 1, so -log(u) > 0 at "
          "every optical-depth draw); every floating-point operation of the generator is exact (no rounding), so the stream is the same "
          "function of the seed on every platform and optimisation level; all indices are in bounds; the full state round-trips through a "
-         "restart file. NOT decided: that the stream equals the published ranlxd2 sequence (no reference on disk), that different seeds "
+         "restart file; every seed given to a RandomGenerator constructor or set_seed anywhere in the library is a function of the input "
+         "(no clock, cycle-counter, pid, address or rand() value flows into it), the structural half of 'same seed => identical output'. "
+         "NOT decided: that the stream equals the published ranlxd2 sequence (no reference on disk), that different seeds "
          "give different streams, byte-identical snapshots of whole runs.",
     note="Trusted: clang, AST export, the 600-line abstract interpreter (cmiv/absint.py), IEEE-754 binary64 semantics.")
 
@@ -231,13 +234,15 @@ CLAIMED["C18"] = dict(
     technique="static analysis: interval abstract interpretation (outward rounded, monotone exp / pow) of every charge-transfer formula over "
               "its clamped range; sign x monotonicity abstract domain on the recombination and photoionization fit expressions; "
               "table exhaustiveness (call-site constants vs. switch labels); must-pass-through rule for the final clamp and the "
-              "threshold guard",
+              "threshold guard; symbolic composition (CAS) of the constructor's stored table entries with the evaluated cross-section "
+              "formula against the published Verner fits",
     text="Decides the clauses of C18 that do not depend on the values in the shipped data tables, for all temperatures / energies at once: "
          "every charge-transfer rate is finite and non-negative (39 arms, enclosures reported) and every reaction the ionization balance "
          "asks for has a non-aborting arm; every recombination rate is returned through max(0, .); the hydrogen and helium recombination "
          "fits are strictly positive and strictly decreasing for T > 0; photoionization cross sections are 0 below the threshold (tested "
-         "first) and otherwise a product of non-negative factors, given non-negative table entries. NOT decided: equality with the "
-         "published fits evaluated on the shipped tables, strict positivity of the metal rates up to 1e5 K, finiteness where table entries "
+         "first) and otherwise a product of non-negative factors, given non-negative table entries; the formula evaluated per shell, "
+         "composed with the derived entries the constructor stores, is identically the published fit (Verner & Yakovlev 1995 inner shells, "
+         "Verner et al. 1996 outer shell) times 1e-22. NOT decided: the values of the shipped tables, strict positivity of the metal rates up to 1e5 K, finiteness where table entries "
          "enter a denominator, and the frequency samplers.",
     note="Trusted: clang, AST export, libm exp/pow within 2 ulp for the enclosures. Assumes non-negative Verner table entries.")
 
